@@ -454,6 +454,7 @@ func mgrRun(t *testing.T, out *verifh.Out, s mgrScn, dir string, kind string) {
 			next = app.stateManager()
 		}()
 		evs := wd.TakeLog()
+		nowEnd := time.Now()
 		_, emergeErr := os.Stat(cfg.Emergefile)
 		_ = os.Remove(cfg.Emergefile)
 		mk := master
@@ -467,7 +468,7 @@ func mgrRun(t *testing.T, out *verifh.Out, s mgrScn, dir string, kind string) {
 		}
 		in := map[string]any{
 			"connected": s.lock != 2, "lock_held": s.lock == 0, "master": mk, "active_nodes": active,
-			"cs": vCSList(view), "dcs": vCSList(dcsView), "now": nowT.UnixNano(),
+			"cs": vCSList(view), "dcs": vCSList(dcsView), "now": nowT.UnixNano(), "now_end": nowEnd.UnixNano(),
 			"master_alive": wd.Nodes[master].Alive,
 			"maint": maintNow, "sw_read": s.sw, "last": s.last, "dcs_fault": s.dcsFault,
 		}
